@@ -4,6 +4,7 @@ import (
 	"bytes"
 	"context"
 	"fmt"
+	"os"
 	"reflect"
 	"runtime"
 	"strings"
@@ -29,6 +30,7 @@ type cancelMon struct {
 	gate    chan struct{}
 	mu      sync.Mutex
 	postOps map[string]int
+	events  []string // development aid (VERIF_C09_SHOW)
 	trace   []string // first post-return operations: goroutine, frame, frame run id, interpreter run id
 	ticks   map[string]int
 	preTick atomic.Int64
@@ -37,6 +39,7 @@ type cancelMon struct {
 	// start window: goroutines started by a go statement on a function value are held between the
 	// run-id check of the go statement and the call of the function
 	holdStarts atomic.Bool
+	holdStage  int // 1: before the call of the function; 3: inside the function wrapper, between the reads deciding the run id
 	startGate  chan struct{}
 	startsHeld atomic.Int64
 	// goroutines which began (go statement on a function value) and neither executed an operation nor
@@ -44,8 +47,8 @@ type cancelMon struct {
 	// start-window mode
 	nStarting atomic.Int64
 	starting  map[string]bool
-	first   atomic.Uintptr // frame of the first operation observed (the global frame)
-	atK     atomic.Uintptr // frame of operation k
+	first     atomic.Uintptr // frame of the first operation observed (the global frame)
+	atK       atomic.Uintptr // frame of operation k
 }
 
 func newCancelMon(k int64) *cancelMon {
@@ -91,10 +94,22 @@ func (m *cancelMon) step(ev interp.VerifStep) {
 	}
 }
 
+func (m *cancelMon) logf(format string, a ...any) {
+	if os.Getenv("VERIF_C09_SHOW") == "" {
+		return
+	}
+	m.mu.Lock()
+	if len(m.events) < 60 {
+		m.events = append(m.events, fmt.Sprintf(format, a...))
+	}
+	m.mu.Unlock()
+}
+
 func (m *cancelMon) goStart(i *interp.Interpreter, stage int) {
 	if i != m.interp {
 		return
 	}
+	m.logf("g%s stage %d", goid(), stage)
 	switch stage {
 	case 0:
 		g := goid()
@@ -102,11 +117,25 @@ func (m *cancelMon) goStart(i *interp.Interpreter, stage int) {
 		m.starting[g] = true
 		m.nStarting.Store(int64(len(m.starting)))
 		m.mu.Unlock()
-	case 1:
-		if m.holdStarts.Load() {
-			m.startsHeld.Add(1)
-			<-m.startGate
+	case 1, 3:
+		if !m.holdStarts.Load() || stage != m.holdStage {
+			return
 		}
+		if stage == 3 {
+			// only the first wrapper entered by a starting goroutine
+			if m.nStarting.Load() == 0 {
+				return
+			}
+			g := goid()
+			m.mu.Lock()
+			ok := m.starting[g]
+			m.mu.Unlock()
+			if !ok {
+				return
+			}
+		}
+		m.startsHeld.Add(1)
+		<-m.startGate
 	case 2:
 		m.started()
 	}
@@ -255,12 +284,13 @@ type cancelRun struct {
 	MaxPostTicks int
 	PostGor      int
 	PostTrace    []string `json:",omitempty"`
+	Events       []string `json:",omitempty"`
 	Leaked       []string
 	Dump         string
 	Frozen       int64
 	Ops          int64
-	Finished     bool // the evaluation finished before operation k
-	TopLevel     bool // operation k ran in the global frame (package-level code, before main's frame exists)
+	Finished     bool  // the evaluation finished before operation k
+	TopLevel     bool  // operation k ran in the global frame (package-level code, before main's frame exists)
 	StartsHeld   int64 `json:",omitempty"` // goroutines held in the start window when the context was cancelled
 	Stalled      bool  `json:",omitempty"` // cancelled because everything was parked behind a held goroutine start, before operation k
 }
@@ -274,6 +304,7 @@ type cancelSetup struct {
 	// startWindow holds every goroutine started by a go statement on a function value just before it
 	// calls the function, cancels, lets the evaluation end, and only then releases those goroutines.
 	startWindow bool
+	holdStage   int // 1 (default) or 3
 }
 
 func newCancelInterp(m *cancelMon, files map[string]string, out *bytes.Buffer) *interp.Interpreter {
@@ -338,6 +369,10 @@ func runCancelAt(s *cancelSetup, k int64) (res cancelRun, setupErr error) {
 		}
 		ret <- err
 	}()
+	m.holdStage = 1
+	if s.holdStage != 0 {
+		m.holdStage = s.holdStage
+	}
 	m.holdStarts.Store(s.startWindow)
 	interp.VerifSetGoStart(m.goStart)
 	defer interp.VerifSetGoStart(nil)
@@ -398,9 +433,11 @@ func runCancelAt(s *cancelSetup, k int64) (res cancelRun, setupErr error) {
 	res.Frozen = m.frozen.Load()
 	res.TopLevel = m.atK.Load() == m.first.Load()
 	res.StartsHeld = m.startsHeld.Load()
+	m.logf("cancel")
 	cancel()
 	select {
 	case err := <-ret:
+		m.logf("returned")
 		res.Returned = true
 		if err != nil {
 			res.Err = err.Error()
@@ -416,7 +453,13 @@ func runCancelAt(s *cancelSetup, k int64) (res cancelRun, setupErr error) {
 		waitQuiet(3 * time.Second)
 		m.holdStarts.Store(false)
 	}
+	m.logf("release starts")
 	close(m.startGate)
+	// every released goroutine either executes an operation or returns: wait for that before looking for
+	// quiescence (a goroutine which has not entered the execution loop yet is invisible to waitQuiet)
+	for dl := time.Now().Add(2 * time.Second); m.nStarting.Load() > 0 && time.Now().Before(dl); {
+		time.Sleep(100 * time.Microsecond)
+	}
 	res.Leaked, res.Dump = waitQuiet(3 * time.Second)
 	res.Ops = m.count.Load()
 	m.mu.Lock()
@@ -431,6 +474,7 @@ func runCancelAt(s *cancelSetup, k int64) (res cancelRun, setupErr error) {
 		}
 	}
 	res.PostGor = len(m.postOps)
+	res.Events = m.events
 	if res.MaxPostOps > 1 || res.MaxPostTicks > 1 {
 		res.PostTrace = append([]string(nil), m.trace...)
 	}
